@@ -129,6 +129,7 @@ def random_case(rng, tier):
     return {'programs': progs, 'persister': persister, 'loader': rng.choice(['default', 'default', 'custom']),
             'via': rng.choice(['loopcomm', 'loopcomm', 'direct']), 'ops': ops, 'load_context': rng.random() < 0.5,
             'sender': rng.choice(['body', 'async', 'thread']),
+            'no_reply': rng.random() < 0.2,  # controllers are told not to wait for an answer: the task is carried out all the same
             'fault': rng.choice([None, None, None, None, ['hook:on_finished', 0], ['hook:on_terminated', 0], ['hook:on_finished:post', 0],
                                  ['hook:on_killed', 0]]),
             'delay': rng.choice([0, 0, 0.5])}
@@ -239,6 +240,8 @@ class Harness:
         """launch / continue through plumpy's controllers (message bodies are built by the library itself)."""
         sender = self.case.get('sender', 'body')
         self.communicator.delivery_queue.append({'delay': self.case.get('delay', 0)})
+        if self.case.get('no_reply'):
+            kwargs['no_reply'] = True
         if sender == 'async':
             method = getattr(self.controller, f'{kind}_process')
             return self.loop.create_task(method(**kwargs))
@@ -299,6 +302,7 @@ def run(case):
                 world.rec('snapshot', str(proc.pid), op[2], proc.state.value, len(proc._trace))
                 continue
             expect_reject = False
+            silent = False  # the sender asked for no reply: only the effect of the task is judged
             if name == 'bogus':
                 body = {process_comms.TASK_KEY: 'frobnicate', process_comms.TASK_ARGS: {}}
                 expect_reject = True
@@ -316,6 +320,7 @@ def run(case):
                 expect_reject = persist_flag and harness.persister is None
                 if case['via'] != 'direct' and case.get('sender', 'body') != 'body':
                     result.counters[f'sender:{case["sender"]}'] += 1
+                    silent = bool(case.get('no_reply'))
                     reply = harness.send_via_controller('launch', process_class=harness.classes[prog_i],
                                                         init_kwargs={'pid': pid} if pid else None, persist=persist_flag,
                                                         loader=harness.loader, nowait=nowait)
@@ -330,6 +335,7 @@ def run(case):
                 expect_reject = harness.persister is None
                 if case['via'] != 'direct' and case.get('sender', 'body') != 'body':
                     result.counters[f'sender:{case["sender"]}'] += 1
+                    silent = bool(case.get('no_reply'))
                     reply = harness.send_via_controller('continue', pid=target[0], tag=tag, nowait=nowait)
                 else:
                     reply = harness.send(body)
@@ -343,10 +349,11 @@ def run(case):
                     # the thread controller chains the create and the continue task with done callbacks instead of awaits
                     result.counters['sender:thread_execute'] += 1
                     reply = harness.thread_controller.execute_process(harness.classes[prog_i], loader=harness.loader,
-                                                                      nowait=nowait)
+                                                                      nowait=nowait, no_reply=bool(case.get('no_reply')))
                 else:
                     reply = harness.loop.create_task(harness.controller.execute_process(
-                        harness.classes[prog_i], loader=harness.loader, nowait=nowait))
+                        harness.classes[prog_i], loader=harness.loader, nowait=nowait, no_reply=bool(case.get('no_reply'))))
+                silent = bool(case.get('no_reply'))
                 expect_reject = harness.persister is None
             else:
                 raise ValueError(name)
@@ -378,7 +385,11 @@ def run(case):
                 nontrivial = True
                 if name != 'bogus':
                     result.counters['probe:rejected_no_persister'] += 1
-                if outcome[0] != 'exception' or outcome[1] != 'TaskRejected':
+                if silent and name != 'execute':  # (execute_process always waits for its create task, which is what is rejected)
+                    result.counters['probe:no_reply_rejected'] += 1
+                    if outcome != ('value', None):
+                        result.violate('no_reply', name, f'{name} sent with no_reply came back with {outcome!r}')
+                elif outcome[0] != 'exception' or outcome[1] != 'TaskRejected':
                     result.violate('rejected_reply', name, f'{name} task that cannot be honoured was answered with {outcome!r} '
                                                            f'instead of TaskRejected')
                 if new_instances or new_steps:
@@ -414,7 +425,7 @@ def run(case):
                     continue
                 proc = new_instances[0]
                 pids[op_index] = (proc.pid, prog_i)
-                _check_reply(result, 'launch', nowait, outcome, proc, model, reply_state)
+                _check_reply(result, 'launch', nowait, outcome, proc, model, reply_state, silent)
                 if persist_flag:
                     state = _checkpoint_state(harness.persister, proc.pid, None, harness.loader)
                     if state != 'created':
@@ -446,7 +457,7 @@ def run(case):
                     if known is None:
                         result.counters['probe:continue_missing'] += 1
                         nontrivial = True
-                        if outcome[0] != 'exception':
+                        if outcome[0] != 'exception' and not silent:
                             result.violate('continue_missing', 'reply', f'continue of a checkpoint that does not exist '
                                                                         f'({pid!r}, {tag!r}) was answered with {outcome!r}')
                         if loaded or new_steps:
@@ -464,7 +475,7 @@ def run(case):
                 proc = loaded[0]
                 if proc.pid != pid:
                     result.violate('continue_wrong_checkpoint', 'pid', f'continued process has pid {proc.pid!r}, asked for {pid!r}')
-                _check_reply(result, 'continue', nowait, outcome, proc, model, reply_state)
+                _check_reply(result, 'continue', nowait, outcome, proc, model, reply_state, silent)
                 got = steps_of(world, proc, mark)
                 want = model['trace'][start_at:]
                 if proc.has_terminated() and got != want:
@@ -537,7 +548,12 @@ def _checkpoint_state(persister, pid, tag, loader=None):
                 world.events.pop()
 
 
-def _check_reply(result, what, nowait, outcome, proc, model, reply_state):
+def _check_reply(result, what, nowait, outcome, proc, model, reply_state, silent=False):
+    if silent:
+        result.counters['probe:no_reply'] += 1
+        if outcome != ('value', None):
+            result.violate('no_reply', what, f'{what} sent with no_reply came back with {outcome!r}')
+        return
     if nowait:
         result.counters['probe:nowait'] += 1
         if outcome != ('value', proc.pid):
